@@ -75,7 +75,40 @@ pub fn dec(s: &str) -> String {
     if s == "-" {
         return String::new();
     }
-    s.split(',').map(|h| char::from_u32(u32::from_str_radix(h, 16).unwrap()).unwrap()).collect()
+    s.split(',').map(|h| char::from_u32(u32::from_str_radix(h, 16).unwrap()).unwrap_or('\u{fffd}')).collect()
+}
+
+/// like `dec`, for paths that need not be text: a value `0x110000 + b` stands for the raw byte `b`
+/// (the generator only uses bytes that cannot occur in valid UTF-8)
+pub fn dec_os(s: &str) -> std::ffi::OsString {
+    use std::os::unix::ffi::OsStringExt;
+    if s == "-" {
+        return std::ffi::OsString::new();
+    }
+    let mut bytes = Vec::new();
+    for h in s.split(',') {
+        let v = u32::from_str_radix(h, 16).unwrap();
+        match char::from_u32(v) {
+            Some(c) if v < 0x110000 => {
+                let mut buf = [0u8; 4];
+                bytes.extend_from_slice(c.encode_utf8(&mut buf).as_bytes());
+            }
+            _ => bytes.push((v & 0xff) as u8),
+        }
+    }
+    std::ffi::OsString::from_vec(bytes)
+}
+
+/// replaces one element of an encoded path (not a slash, not a dot) by a byte that is not text
+pub fn poison(encoded: &str, rng: &mut Rng) -> String {
+    let mut parts: Vec<String> = encoded.split(',').map(|x| x.to_string()).collect();
+    let cand: Vec<usize> = parts.iter().enumerate().filter(|(_, h)| *h != "2f" && *h != "2e" && *h != "-").map(|(i, _)| i).collect();
+    if cand.is_empty() {
+        return encoded.to_string();
+    }
+    let i = *rng.pick(&cand);
+    parts[i] = format!("{:x}", 0x110000 + *rng.pick(&[0xffu32, 0xfe, 0xc0, 0xc1, 0xf8, 0x80]));
+    parts.join(",")
 }
 
 /// Characters by class; the generator mixes classes inside one name.
@@ -177,7 +210,7 @@ pub fn exec(line: &str) -> String {
         },
         ["cmp", a, b] => ord(cfb::verif::compare_names(&dec(a), &dec(b))).into(),
         ["chain", p] => {
-            let p = dec(p);
+            let p = dec_os(p);
             match cfb::verif::name_chain_from_path(Path::new(&p)) {
                 Ok(names) => {
                     let mut s = "ok".to_string();
@@ -228,7 +261,11 @@ pub fn campaign(seed: u64, count: u64, ops_path: &str, impl_path: &str) -> (std:
                 let b = if rng.chance(1, 2) { related(&mut rng, &a) } else { gen_name(&mut rng) };
                 format!("cmp {} {}", enc(&a), enc(&b))
             }
-            _ => format!("chain {}", enc(&gen_path(&mut rng))),
+            _ => {
+                let e = enc(&gen_path(&mut rng));
+                // one path in ten has a component that is not valid UTF-8
+                format!("chain {}", if rng.chance(1, 10) { poison(&e, &mut rng) } else { e })
+            }
         };
         let out = catch(|| exec(&line)).unwrap_or_else(|_| "panic".into());
         let t: Vec<&str> = line.split_whitespace().collect();
@@ -244,6 +281,40 @@ pub fn campaign(seed: u64, count: u64, ops_path: &str, impl_path: &str) -> (std:
                 let expect = ord(spec_cmp(&dec(a), &dec(b)));
                 if out != expect {
                     violations.push(format!("{} gave {}, CFB order (UTF-16 length, then upper-cased code units) says {}", line, out, expect));
+                }
+            }
+            ["chain", pth] => {
+                // the rule of the property, on the code list: split at '/', drop empty and '.' components,
+                // '..' removes the last name (InvalidInput when there is none), a component that is not
+                // text is InvalidInput; a leading '/' changes nothing
+                let codes: Vec<u32> = if *pth == "-" { vec![] } else { pth.split(',').map(|h| u32::from_str_radix(h, 16).unwrap()).collect() };
+                let mut names: Vec<Vec<u32>> = Vec::new();
+                let mut bad = false;
+                for comp in codes.split(|c| *c == 0x2f) {
+                    if comp.is_empty() || comp == [0x2e] {
+                        continue;
+                    }
+                    if comp == [0x2e, 0x2e] {
+                        if names.pop().is_none() {
+                            bad = true;
+                            break;
+                        }
+                    } else if comp.iter().any(|c| *c >= 0x110000) {
+                        bad = true;
+                        break;
+                    } else {
+                        names.push(comp.to_vec());
+                    }
+                }
+                let expect = if bad {
+                    "err invalidInput".to_string()
+                } else if names.is_empty() {
+                    "ok".to_string()
+                } else {
+                    format!("ok {}", names.iter().map(|n| n.iter().map(|c| format!("{:x}", c)).collect::<Vec<_>>().join(",")).collect::<Vec<_>>().join("/"))
+                };
+                if out != expect {
+                    violations.push(format!("{} gave {}, path normalisation (drop empty and '.' components, '..' removes the last name, escaping the root or a non-UTF-8 component is InvalidInput) says {}", line, out, expect));
                 }
             }
             _ => {
